@@ -53,6 +53,11 @@ structure SameOutcome (sel : Nat → Option Rat) (r r' : Except Err Estimator) :
       ∀ ds, err = .missing ds → ∃ ds', err' = .missing ds' ∧ ds'.Perm ds
   estimate : ∀ e, r = .ok e → ∃ e', r' = .ok e' ∧ e'.range = e.range ∧ NDSame (e.toND sel) (e'.toND sel)
 
+/-- the driver (`PGA/Drv/Pipeline.lean`) decomposes a molecule once and runs `estimateOf` for each temperature's library: what it
+reports is `pipeline` -/
+theorem PIPE_driver_computes_pipeline (reg : List String) (S : SchemeDef) (lib : Lib) (m : Mol) (set : String) :
+    estimateOf reg set (remember lib m, decompose S m) = pipeline reg S lib m set := rfl
+
 /-! ### an estimate sees a dictionary through its counts only -/
 
 /-- **Counts only, any datum.** Two dictionaries (distinct keys) giving every name the same count — the entries may come
@@ -409,7 +414,7 @@ theorem pkindOf_pipeline (reg : List String) (S : SchemeDef) (lib : Lib) (m : Mo
       match decompose S m with
       | .error _ => some .patternMatch
       | .ok c => (kindOf (estimate reg lib c set)).map PKind.estimate := by
-  unfold pipeline getDescriptors remember
+  unfold pipeline getDescriptors estimateOf remember
   cases decompose S m with
   | error e => cases e; rfl
   | ok c =>
